@@ -16,7 +16,7 @@ import (
 )
 
 func init() {
-	core.Register(core.Check{ID: "C01", Level: "exploration", Run: func(c *core.Ctx) { runC01(c); historyPass(c, "C01"); reentrancyPass(c, "C01") }})
+	core.Register(core.Check{ID: "C01", Level: "exploration", Run: func(c *core.Ctx) { runC01(c); historyPass(c, "C01"); reentrancyPass(c, "C01"); arch386Pass(c, "C01") }})
 }
 
 type c01triple struct {
